@@ -50,56 +50,88 @@ theorem leave_leaves_nothing {σ J : Type} (run : JobQueue.Run σ J) :
       · simp at h; rw [← h]
       · exact ih _ _ _ _ h
 
-/-! ## FIFO discipline of the kernel (two buffers `cur`, `queue`) -/
+/-! ## FIFO discipline of the kernel -/
 
-/-- Jobs started ++ rest of the current batch ++ queue = jobs enqueued (and not discarded by an interrupt),
-in enqueue order: nothing skipped, nothing reordered, nothing invented. -/
-theorem ran_is_prefix_of_enqueued {k : K} (h : Reach k) : k.ran ++ k.cur ++ k.queue = k.enq :=
+/-- Jobs started ++ jobs not yet started = jobs enqueued (and not discarded by an interrupt), in enqueue order:
+nothing skipped, nothing reordered, nothing invented. -/
+theorem ran_is_prefix_of_enqueued {k : K} (h : Reach k) : k.ran ++ k.jobs = k.enq :=
   (qinv_reach h).fifo
 
 theorem ran_prefix {k : K} (h : Reach k) : k.ran <+: k.enq :=
-  ⟨k.cur ++ k.queue, by rw [← List.append_assoc]; exact ran_is_prefix_of_enqueued h⟩
+  ⟨k.jobs, ran_is_prefix_of_enqueued h⟩
+
+/-- Step-wise simulation of the spec scheduler: the job the mechanism starts next (head of `jobs`) is the OLDEST
+enqueued job that has not been started — exactly the choice of the specification's single FIFO queue. -/
+theorem popJob_starts_oldest {k : K} (h : Reach k) (j : Job) (rest : List Job) (hj : k.jobs = j :: rest) :
+    (k.enq.drop k.ran.length).head? = some j ∧ (popJob k).ran = k.ran ++ [j] := by
+  constructor
+  · rw [← ran_is_prefix_of_enqueued h, hj]; simp
+  · unfold popJob; rw [hj]; cases j <;> rfl
 
 /-- Every job is started at most once (serials of started jobs are pairwise distinct). -/
 theorem job_runs_at_most_once {k : K} (h : Reach k) : (k.ran.map Job.sid).Nodup := by
   have hq := qinv_reach h
   have h1 := hq.sids.1
-  rw [← hq.fifo, List.append_assoc, List.map_append, List.pairwise_append] at h1
+  rw [← hq.fifo, List.map_append, List.pairwise_append] at h1
   exact h1.1.imp (fun hlt => Nat.ne_of_lt hlt)
 
-/-- When the drain loop finds both buffers empty (the only way leave() returns normally), every job enqueued
+/-- When the drain loop finds no job left (the only way leave() returns normally), every job enqueued
 has been started: exactly once, by `job_runs_at_most_once`. -/
-theorem queue_empty_on_normal_return {k : K} (h : Reach k) (hc : k.cur = []) (hq : k.queue = []) :
-    k.ran = k.enq := by
+theorem queue_empty_on_normal_return {k : K} (h : Reach k) (hq : k.jobs = []) : k.ran = k.enq := by
   have := ran_is_prefix_of_enqueued h
-  rw [hc, hq] at this
+  rw [hq] at this
   simpa using this
 
-/-- The interpreter's drain returns "not aborted" only with both buffers empty. -/
-theorem drain_normal_return_empty (prog : Prog) : ∀ (n : Nat) (st st' : St),
-    drainS prog n st = (false, st') → st'.rk.val.cur = [] ∧ st'.rk.val.queue = [] := by
+/-- The interpreter's drain (mechanism, with the batch counter) returns "not aborted" only with no job left. -/
+theorem drain_normal_return_empty (prog : Prog) : ∀ (n c : Nat) (st st' : St),
+    drainS prog n c st = (false, st') → st'.rk.val.jobs = [] := by
   intro n
   induction n with
-  | zero => intro st st' h; simp [drainS] at h
+  | zero => intro c st st' h; simp [drainS] at h
   | succ n ih =>
-    intro st st' h
+    intro c st st' h
     simp only [drainS] at h
     split at h
-    · rename_i hc
-      split at h
-      · rename_i hq
-        simp only [Prod.mk.injEq, true_and] at h
-        rw [← h]
-        exact ⟨List.isEmpty_iff.mp hc, List.isEmpty_iff.mp hq⟩
-      · exact ih _ _ h
+    · rename_i hq
+      simp only [Prod.mk.injEq, true_and] at h
+      rw [← h]
+      exact List.isEmpty_iff.mp hq
     · split at h
       · simp at h
-      · exact ih _ _ h
+      · exact ih _ _ _ h
 
-/-- leaveAbrupt: both buffers are emptied without starting anything; the discarded jobs leave the live log. -/
+/-- WHOLE-PROGRAM REFINEMENT, drain loop: the mechanism-level drain of the interpreter (Runtime.leave() with its
+batch counter = double buffer) and the specification drain (one FIFO queue, oldest job first) are the same function
+of the interpreter state, for every program, every fuel and every batch counter — same jobs run in the same order
+from the same states, same abort behaviour, same final state (event log, tracker log, promise table, …). -/
+theorem drain_mech_eq_spec (prog : Prog) : ∀ (n c : Nat) (st : St), drainS prog n c st = drainF prog n st := by
+  intro n
+  induction n with
+  | zero => intro c st; rfl
+  | succ n ih =>
+    intro c st
+    simp only [drainS, drainF]
+    split
+    · rfl
+    · split
+      · rfl
+      · exact ih _ _
+
+/-- WHOLE-PROGRAM REFINEMENT (trace equivalence): running any program — every outermost call (RunString, Go-side
+resolve/reject) followed by its drain — with the mechanism-level drain loop yields exactly the result of running
+it against the specification's single FIFO job queue: identical error kinds and identical final state, hence
+identical global event log, tracker log, promise states/results and kernel logs. -/
+theorem whole_program_mech_eq_spec (prog : Prog) (segs : List Seg) (st : St) :
+    runSegsWith drain prog segs st = runSegsWith drainSpec prog segs st := by
+  have : drain = drainSpec := by
+    funext p n st
+    exact drain_mech_eq_spec p n 0 st
+  rw [this]
+
+/-- leaveAbrupt: all queued jobs are discarded without starting anything; the discarded jobs leave the live log. -/
 theorem interrupt_drops_queue (k : K) :
-    (leaveAbrupt k).cur = [] ∧ (leaveAbrupt k).queue = [] ∧ (leaveAbrupt k).ran = k.ran ∧
-    (leaveAbrupt k).enq = k.ran := ⟨rfl, rfl, rfl, rfl⟩
+    (leaveAbrupt k).jobs = [] ∧ (leaveAbrupt k).ran = k.ran ∧
+    (leaveAbrupt k).enq = k.ran := ⟨rfl, rfl, rfl⟩
 
 /-- After an interrupt, whatever happens next, only jobs enqueued later are ever started: the jobs started before
 the interrupt stay a prefix of the started log, and every job started afterwards carries a serial ≥ the serial
@@ -107,12 +139,12 @@ counter at the moment of the interrupt — whereas every discarded job has a ser
 theorem after_interrupt_only_new_jobs {k : K} (h : Reach k) (ops : List KOp) :
     let k' := applyOps ops (leaveAbrupt k)
     (∃ x, k'.ran = k.ran ++ x ∧ ∀ j ∈ x, k.nextSid ≤ j.sid) ∧
-    (∀ j ∈ k.cur ++ k.queue, j.sid < k.nextSid) := by
-  have hdrop : ∀ j ∈ k.cur ++ k.queue, j.sid < k.nextSid := by
+    (∀ j ∈ k.jobs, j.sid < k.nextSid) := by
+  have hdrop : ∀ j ∈ k.jobs, j.sid < k.nextSid := by
     intro j hj
     have hq := qinv_reach h
     apply hq.sids.2
-    rw [← hq.fifo, List.append_assoc]
+    rw [← hq.fifo]
     exact List.mem_map_of_mem (List.mem_append_right _ hj)
   refine ⟨?_, hdrop⟩
   have key : ∀ (ops : List KOp) (k1 : K), Reach k1 → After k.ran k.nextSid k1 →
@@ -130,7 +162,7 @@ theorem after_interrupt_only_new_jobs {k : K} (h : Reach k) (ops : List KOp) :
   obtain ⟨x, hx⟩ := ha.pre
   refine ⟨x, hx, ?_⟩
   have hf := (qinv_reach hr).fifo
-  rw [hx, hl, List.append_assoc, List.append_assoc] at hf
+  rw [hx, hl, List.append_assoc] at hf
   have hl2 := List.append_cancel_left hf
   intro j hj
   apply hlb
@@ -190,6 +222,35 @@ theorem first_call_sets_latch (k : K) (l p : Nat) (b : Bool) (hl : k.latches[l]?
     · unfold callReject; rw [hl]
       simp only [Bool.false_eq_true, if_false]
       rw [(rejectP_frame _ _ _).2.1]; exact hset
+
+/-- A call of one of the two functions of a resolving pair. -/
+inductive PairCall | res (v : Val) (look : ThenLook) | rej (v : Val)
+
+def PairCall.op (l : Nat) : PairCall → KOp
+  | .res v look => .callResolve l v look
+  | .rej v => .callReject l v
+
+/-- Promise.race (and every other place where ONE capability's functions are handed to many reactions,
+builtin_promise.go:534): whichever element's reaction job runs first decides; every later call of the capability's
+resolve or reject function — any number, any values — leaves the whole kernel state unchanged. -/
+theorem race_first_call_wins (k : K) (l p : Nat) (b : Bool) (hl : k.latches[l]? = some (p, b))
+    (first : PairCall) (later : List PairCall) :
+    applyOps (later.map (PairCall.op l)) (applyOp (first.op l) k) = applyOp (first.op l) k := by
+  have hset : (applyOp (first.op l) k).latches[l]? = some (p, true) := by
+    cases first with
+    | res v look => exact (first_call_sets_latch k l p b hl v look).1
+    | rej v => exact (first_call_sets_latch k l p b hl v .notCallable).2
+  generalize applyOp (first.op l) k = k1 at hset
+  induction later with
+  | nil => rfl
+  | cons c cs ih =>
+    simp only [List.map_cons, applyOps, List.foldl_cons]
+    have : applyOp (c.op l) k1 = k1 := by
+      cases c with
+      | res v look => exact (resolve_reject_idempotent k1 l p hset v look).1
+      | rej v => exact (resolve_reject_idempotent k1 l p hset v .notCallable).2
+    rw [this]
+    exact ih
 
 /-! ## HostPromiseRejectionTracker protocol -/
 
@@ -412,15 +473,15 @@ theorem interpreter_state_invariants (st : St) :
 
 /-- test: a reachable state with a rejected unhandled promise, then handled; two jobs run in order. -/
 example :
-    let k := applyOps [.newCap, .callReject 0 (.num 1), .addReactions 0 none none none, .swap, .popJob] {}
-    Reach k ∧ k.ran.length = 1 ∧ k.cur.length = 0 ∧ trkL k.tracker 0 = [.reject, .handle] ∧
+    let k := applyOps [.newCap, .callReject 0 (.num 1), .addReactions 0 none none none, .popJob] {}
+    Reach k ∧ k.ran.length = 1 ∧ k.jobs.length = 0 ∧ trkL k.tracker 0 = [.reject, .handle] ∧
     (k.getP 0).state = .rejected :=
   ⟨reach_applyOps .init _, by decide, by decide, by decide, by decide⟩
 
 /-- test: resolving with a thenable keeps the promise pending with exactly one live token. -/
 example :
     let k := applyOps [.newCap, .callResolve 0 (.thenable 0) (.callable (.thenableThen 0)), .callResolve 0 (.num 2) .notCallable] {}
-    (k.getP 0).state = .pending ∧ live k 0 = 1 ∧ k.queue.length = 1 :=
+    (k.getP 0).state = .pending ∧ live k 0 = 1 ∧ k.jobs.length = 1 :=
   ⟨by decide, by decide, by decide⟩
 
 end GojaModel.C10
